@@ -1,40 +1,33 @@
 ------------------------------ MODULE TraceCMS ------------------------------
 (* Traces of the real CountMinSketch.  ndjson:                                            *)
 (*  {"e":"begin","depth":d}                                                               *)
-(*  {"e":"update","item":id,"w":w,"locs":[l_1..l_d],                                      *)
-(*   "queries":[[id, [locs], result],...], "rowsums":[...]}                               *)
-(* locs are the locations cms_hash gives for the item under the sketch's seeds (computed  *)
-(* by the harness with the real hash function); queries are the real query() results for  *)
-(* every item seen so far and one unseen item.  The model keeps the touched cells and     *)
-(* accepts an event iff it is CMS.tla's Update under a FUNCTION Hash (an item always has  *)
-(* the same locations: update and query agree) and the invariants hold.                   *)
+(*  {"e":"update","item":id,"w":w,"queries":[[id, result],...], "rowsums":[...]}           *)
+(* queries are the real query() results, after the update, for every item seen so far     *)
+(* and for one item never added (id 0).  TLC keeps the ghosts of CMS.tla (truth per item, *)
+(* total weight) and accepts an event iff the property's clauses hold on it: NeverUnder,  *)
+(* NeverOverTotal, RowSumsAreTotal.  (Which cells the implementation touches is not       *)
+(* constrained: any sketch with one-sided error is accepted.)                             *)
 EXTENDS Naturals, Integers, Sequences, FiniteSets, FiniteSetsExt, TLC, Json, IOUtils
-VARIABLES l, cell, hashf, truth, total, depth
+VARIABLES l, truth, total, depth
 Trace == ndJsonDeserialize(IOEnv.TRACE_FILE)
 Get(f, k) == IF k \in DOMAIN f THEN f[k] ELSE 0
-Init == l = 1 /\ cell = <<>> /\ hashf = <<>> /\ truth = <<>> /\ total = 0 /\ depth = 0
+Init == l = 1 /\ truth = <<>> /\ total = 0 /\ depth = 0
 Begin == /\ l <= Len(Trace) /\ Trace[l].e = "begin"
-         /\ cell' = <<>> /\ hashf' = <<>> /\ truth' = <<>> /\ total' = 0 /\ depth' = Trace[l].depth /\ l' = l + 1
+         /\ truth' = <<>> /\ total' = 0 /\ depth' = Trace[l].depth /\ l' = l + 1
 Update == /\ l <= Len(Trace) /\ Trace[l].e = "update"
           /\ LET ev == Trace[l]
-                 touched == {<<i, ev.locs[i]>> : i \in 1..depth}
-                 c1 == [k \in (DOMAIN cell) \cup touched |-> Get(cell, k) + (IF k \in touched THEN ev.w ELSE 0)]
-                 h1 == [x \in (DOMAIN hashf) \cup {ev.item} |-> IF x = ev.item THEN ev.locs ELSE hashf[x]]
                  t1 == [x \in (DOMAIN truth) \cup {ev.item} |-> Get(truth, x) + (IF x = ev.item THEN ev.w ELSE 0)]
-                 q(locs) == Min({Get(c1, <<i, locs[i]>>) : i \in 1..depth})
-             IN /\ Len(ev.locs) = depth /\ ev.w >= 0
-                /\ (ev.item \in DOMAIN hashf => hashf[ev.item] = ev.locs)          \* Hash is a function
+             IN /\ ev.w >= 0
                 /\ \A j \in DOMAIN ev.queries :
                       LET qq == ev.queries[j] IN
-                      /\ (qq[1] \in DOMAIN h1 => h1[qq[1]] = qq[2])                \* query uses the update's locations
-                      /\ qq[3] = q(qq[2])                                          \* query = min over the rows
-                      /\ qq[3] >= Get(t1, qq[1])                                   \* NeverUnder
-                      /\ qq[3] <= total + ev.w                                     \* NeverOverTotal
-                /\ \A i \in DOMAIN ev.rowsums : ev.rowsums[i] = total + ev.w       \* RowSumsAreTotal
+                      /\ qq[2] >= Get(t1, qq[1])                                   \* NeverUnder
+                      /\ qq[2] <= total + ev.w                                     \* NeverOverTotal
+                /\ \E j \in DOMAIN ev.queries : ev.queries[j][1] = ev.item          \* the updated item was queried
                 /\ Len(ev.rowsums) = depth
-                /\ cell' = c1 /\ hashf' = h1 /\ truth' = t1 /\ total' = total + ev.w
+                /\ \A i \in DOMAIN ev.rowsums : ev.rowsums[i] = total + ev.w       \* RowSumsAreTotal
+                /\ truth' = t1 /\ total' = total + ev.w
           /\ depth' = depth /\ l' = l + 1
 Next == Begin \/ Update
-Spec == Init /\ [][Next]_<<l, cell, hashf, truth, total, depth>>
+Spec == Init /\ [][Next]_<<l, truth, total, depth>>
 Accepted == TLCGet("stats").diameter - 1 = Len(Trace)
 =============================================================================
